@@ -94,7 +94,8 @@ fn plaintext_pair() -> SimResult {
     let (pa, pb) = (content(1, small(0, 3000)), content(2, small(0, 3000)));
     note_val("ta", ta as u64);
     note_val("tb", tb as u64);
-    let (a, b) = pipe::pair_cfg(PipeCfg::draw_min_cap(2048), PipeCfg::draw_min_cap(2048));
+    let staged = choose(3) == 0; // transport with buffered-writer semantics: bytes move only on flush
+    let (a, b) = pipe::pair_cfg(PipeCfg::draw_min_cap(2048).with_staged(staged), PipeCfg::draw_min_cap(2048).with_staged(staged));
     let (sa, sb): (SideRef, SideRef) = Default::default();
     let (sa2, pa2) = (sa.clone(), pa.clone());
     let ua = spawn("A", async move {
@@ -258,7 +259,8 @@ fn pnet_pair() -> SimResult {
     let k2 = if same { k1 } else { PreSharedKey::new(std::array::from_fn(|i| if i == 0 { 0xFF ^ choose(255) as u8 } else { choose(256) as u8 })) };
     let same = same || k1 == k2;
     let (pa, pb) = (content(3, small(0, 6000)), content(4, small(0, 6000)));
-    let (a, b) = pipe::pair_cfg(PipeCfg::draw_min_cap(64), PipeCfg::draw_min_cap(64));
+    let staged = choose(3) == 0;
+    let (a, b) = pipe::pair_cfg(PipeCfg::draw_min_cap(64).with_staged(staged), PipeCfg::draw_min_cap(64).with_staged(staged));
     let (ca, cb) = (a.ctl(), b.ctl());
     let (sa, sb): (SideRef, SideRef) = Default::default();
     let eintr = [0u32, 0, 50, 200][choose(4)];
